@@ -1,7 +1,8 @@
 #!/venv/bin/python
-"""Writes harness/decorators.json: the decorator list of every function/class the translators look up with
-Source.find, as found in /repo's CURRENT tree. Run by the integrator when the pinned tree legitimately changes
-(never by a check): the file is the documented value the `binding:` obligations compare with."""
+"""Writes harness/bindings.json: for every function/class the translators look up with Source.find, the facts of /repo's
+CURRENT tree that the `binding:` obligations compare with (decorator list, fingerprint of its string literals, the
+module-level statements it depends on, overriding subclasses). Run by the integrator when the reviewed tree legitimately
+changes (never by a check)."""
 import os, sys, json, glob, importlib
 sys.path.insert(0, os.path.dirname(os.path.abspath(__file__)))
 import core
@@ -10,14 +11,7 @@ for p in sorted(glob.glob(os.path.join(core.VERIF, "harness", "props", "c[0-9]*.
     mod = importlib.import_module("props." + os.path.basename(p)[:-3])
     src = core.Source(core.REPO)
     mod.translate(src)
-    for a in src.binding_anchors():
-        key = a["name"][len("binding:"):]
-        (scope, node) = src._found[tuple(key.split(":", 1))]
-        import ast
-        d = [ast.unparse(x).replace(" ", "") for x in getattr(node, "decorator_list", [])]
-        if d:
-            out[key] = d
-        if not a["ok"] and "decorators" not in a.get("detail", ""):
-            print("WARNING", a["name"], a.get("detail"))
-json.dump(out, open(os.path.join(core.VERIF, "harness", "decorators.json"), "w"), indent=1, sort_keys=True)
-print(len(out), "decorated functions documented")
+    for (rel, qn), (scope, node) in sorted(src._found.items()):
+        out[f"{rel}:{qn}"] = src.definition_facts(rel, qn, node)
+json.dump(out, open(os.path.join(core.VERIF, "harness", "bindings.json"), "w"), indent=1, sort_keys=True)
+print(len(out), "looked-up definitions documented")
